@@ -167,27 +167,46 @@ func (w *World) recordOp(g *G, e *effect) {
 					r.fp.add(o.id, mode)
 				}
 			}
+			// A sleeping entry blocks EVERY variant of the goroutine's run, so the footprint also covers what
+			// decides which variants exist: all channels of every select the run passes through.
+			if r.g == g {
+				addPending(r.fp, g)
+			} else {
+				addPending(r.fp, e.o)
+			}
 		}
 	}
 }
 
-// addPending adds every object of g's pending operation to the footprint (the run depends on them: it is
-// blocked on them, or they decide which alternatives it has).
-func addPending(fp footprint, g *G) {
+// pendingDeps lists the objects the pending operation of a parked goroutine depends on, with the mode of the
+// dependence: a pending receive / Lock / Wait / Accept / Read only OBSERVES the object until it can proceed
+// (it conflicts with writes and commuting updates of others, not with their reads); a pending send offers a
+// value to a receiver (write).
+func pendingDeps(g *G, f func(o *Obj, mode uint8)) {
 	p := g.pend
 	if p == nil {
 		return
 	}
 	for i := range p.cases {
 		if c := p.cases[i].c; c != nil {
-			fp.add(c.id, modeWrite)
+			if p.cases[i].send {
+				f(&c.Obj, modeWrite)
+			} else {
+				f(&c.Obj, modeRead)
+			}
 		}
 	}
 	for _, o := range p.objs {
 		if o != nil {
-			fp.add(o.id, modeWrite)
+			f(o, modeRead)
 		}
 	}
+}
+
+// addPending adds the dependences of g's pending operation to the footprint (the run is blocked on them, or
+// they decide which alternatives it has).
+func addPending(fp footprint, g *G) {
+	pendingDeps(g, func(o *Obj, mode uint8) { fp.add(o.id, mode) })
 }
 
 // endRuns closes the recordings of every goroutine other than next (their run is over).
@@ -211,21 +230,16 @@ func (w *World) endRuns(next *G) {
 
 // wakePending removes the entries conflicting with the pending operation of g (whose run just ended).
 func wakePending(sleep []sleepEntry, g *G) []sleepEntry {
-	p := g.pend
-	if p == nil {
-		return sleep
-	}
-	var objs []*Obj
-	for i := range p.cases {
-		if c := p.cases[i].c; c != nil {
-			objs = append(objs, &c.Obj)
-		}
-	}
-	objs = append(objs, p.objs...)
 	keep := sleep[:0:0]
 	changed := false
 	for i := range sleep {
-		if conflicts(sleep[i].fp, objs, modeWrite) {
+		hit := false
+		pendingDeps(g, func(o *Obj, mode uint8) {
+			if !hit && conflicts(sleep[i].fp, []*Obj{o}, mode) {
+				hit = true
+			}
+		})
+		if hit {
 			changed = true
 			continue
 		}
